@@ -27,6 +27,12 @@ CHECKS["C14"] = dict(level="model_checking", technique="TLA+ Pipeline model (C14
 CHECKS["C17"] = dict(level="fault_enumeration", technique="TLA+ Pipeline model with fault plans model-checked by TLC (cache never vouches for stale files, in every state); TLC-enumerated fault histories executed on the real binaries with strace fault injection; trace validation by TLC",
     text="Every fault plan TLC enumerates (open failure, write failure after truncation, or kill at each file of the write sequence incl. .typecache and the dependency-graph files, in a first run or after an output-changing edit, followed by recovery runs) is injected into the real CLI and the real build driver with strace; Trace_Pipeline checks that a failed write is reported, that no file is written after the cache record, that a further non-forced run would not report up to date over stale files, and that recovery ends current.",
     note="Quick tier samples one history per (fault kind, file, position, viz); thorough runs all ~6000. failopen on .typecache also fails the read of the record (harness artefact, reported as drift).", ref="6 (C17)")
+CHECKS["C16"] = dict(level="model_checking", technique="TLA+ Pipeline model (probe file, confinement action property) checked by TLC; TLC-enumerated histories replayed on generate/init/build drivers over 7 output-directory layouts under strace; every mutating syscall and a recursive before/after hash judged by TLC (Trace_Pipeline, reserved-name predicate on character sequences)",
+    text="TLC checks the confinement action property on the Pipeline model; every history TLC enumerates (incl. runs that find no commands, a foreign .write_test, lost files, reruns) is executed with the real generate, init and build drivers in 7 directory layouts with the output directory pre-populated by foreign files whose names are close to the reserved ones; Trace_Pipeline accepts a run only if every file-mutating system call hits a reserved generated name directly inside the output directory (or creates that directory; init: the configuration file) and nothing else in the sandbox changed.",
+    note="The sandbox stands for the rest of the file system. Trusted: strace completeness, TLC.", ref="6 (C16)")
+CHECKS["C13"] = dict(level="model_checking", technique="TLA+ Pipeline model (C13_OrderIndependent over every iteration order) checked by TLC with a negative-control knob setting; many fresh-process runs and semantics-preserving source transformations on the real CLI/build driver; output relations (identical / vizonly / declset) judged by TLC",
+    text="TLC shows on the Pipeline model that what a run writes is independent of the iteration order it sees (and rejects the pinned tree's knob setting); on the real binaries each project state (base, each of 26 edit classes, sampled pairs; 1..6 command files) is generated by many fresh processes on both drivers and under each semantics-preserving transformation, and Trace_Pipeline judges the relations the property demands over per-file sequences of declaration digests.",
+    note="Schedules (hash seeds) on the real binary are sampled (6 processes quick / 25 thorough per state); exhaustiveness over orders is in the model only.", ref="6 (C13)")
 NOT_YET = {}
 def main():
     props = [json.loads(l) for l in open(os.path.join(VERIF, "properties.jsonl"))]
